@@ -48,8 +48,8 @@ func init() {
 	})
 	register(&Rule{
 		Name:  "MD-ASSIGN",
-		Doc:   "AssignMetadataIDs builds the set of explicit IDs from all definitions, hands out only IDs not in that set, and both ID-assignment routines run in WriteTo before anything is written",
-		Floor: 3,
+		Doc:   "AssignMetadataIDs builds the set of explicit IDs from all definitions, completes that set before it hands out the first ID, hands out only IDs not in that set, and both ID-assignment routines run in WriteTo before anything is written",
+		Floor: 4,
 		Run:   ruleMDASSIGN,
 	})
 }
@@ -620,6 +620,43 @@ func ruleMDASSIGN(c *Ctx) []Obligation {
 		})
 	}
 	obs = append(obs, o1, o2)
+	// the loop that records explicit IDs is complete before the first ID is handed out
+	o4 := Obligation{Key: "AssignMetadataIDs knows every explicit ID before handing out any", Pos: c.pos(fd.Pos()), Verdict: UNDECIDED, Detail: "collection loop or SetID call not found", Tags: []string{"md"}}
+	if used != nil {
+		var collectLoop *ast.RangeStmt
+		var firstSet token.Pos
+		ast.Inspect(fd.Body, func(nd ast.Node) bool {
+			switch nd := nd.(type) {
+			case *ast.RangeStmt:
+				if collectLoop == nil {
+					ast.Inspect(nd.Body, func(m ast.Node) bool {
+						if as, ok := m.(*ast.AssignStmt); ok && len(as.Lhs) == 1 {
+							if ix, ok := as.Lhs[0].(*ast.IndexExpr); ok {
+								if id, ok := ix.X.(*ast.Ident); ok && info.ObjectOf(id) == used {
+									collectLoop = nd
+								}
+							}
+						}
+						return true
+					})
+				}
+			case *ast.CallExpr:
+				if se, ok := unparen(nd.Fun).(*ast.SelectorExpr); ok && se.Sel.Name == "SetID" && firstSet == 0 {
+					firstSet = nd.Pos()
+				}
+			}
+			return true
+		})
+		if collectLoop != nil && firstSet != 0 {
+			if firstSet > collectLoop.End() {
+				o4.Verdict, o4.Pos, o4.Detail = OK, c.pos(firstSet), "the loop recording explicit IDs ends before the first SetID"
+			} else {
+				o4.Verdict, o4.Pos = VIOL, c.pos(firstSet)
+				o4.Detail = "SetID is called inside (or before) the loop that records the explicit IDs: a definition without ID that precedes a definition with explicit ID N can be given N, because N is not yet in the used set — two definitions then share one ID"
+			}
+		}
+	}
+	obs = append(obs, o4)
 	// WriteTo calls both assignment routines before the first write
 	wi := c.writerAnchors()
 	o3 := Obligation{Key: "WriteTo assigns IDs before writing", Verdict: OK, Tags: []string{"md"}}
